@@ -401,6 +401,81 @@ def work(task):
     return n, bad
 
 
+def work_history(task):
+    """deep_eq must be a function of the two current object graphs only:
+    compare, mutate one side in place through the API, compare again."""
+    which, lo, hi, tier = task
+    from gtirb.version import PROTOBUF_VERSION as PV
+
+    base = base_spec(which, tier)
+    vs = variants(base, ircases.enum_numbers(), small=which != "rich")
+    bad = []
+    n = 0
+    target = irgen.U(1)  # a code block of the base IR
+    for j in range(lo, min(hi, len(vs))):
+        label, vspec = vs[j]
+        try:
+            a, an = irgen.build_ir(base, "topdown")
+            b, bn = irgen.build_ir(vspec, "topdown")
+        except Exception:  # noqa  (reported by work())
+            continue
+        if target not in an:
+            continue
+        for rnd in range(2):
+            try:
+                a.deep_eq(b)          # first comparison (any result)
+                b.deep_eq(a)
+            except Exception:  # noqa
+                pass
+            # in-place edit of one compared field on side a
+            mut = copy.deepcopy(base)
+            blk = index(mut)[target][1]
+            if rnd == 0:
+                an[target].size = an[target].size + 5
+                blk["size"] += 5
+            else:
+                an[target].size = an[target].size + 5
+                an[target].offset = an[target].offset + 1
+                blk["size"] += 10
+                blk["offset"] += 1
+            cur = mut
+            n += 1
+            # node level first: an IR-level call could refresh hidden state
+            for u, oa in an.items():
+                ob = bn.get(u)
+                if ob is None or u == base["uuid"]:
+                    continue
+                for x, y, sx, sy in ((oa, ob, cur, vspec), (ob, oa, vspec, cur)):
+                    n += 1
+                    want = node_snap(sx, u) == node_snap(sy, u)
+                    try:
+                        got = x.deep_eq(y)
+                    except Exception as e:  # noqa
+                        got = "raised %s" % type(e).__name__
+                    if got != want and len(bad) < 40:
+                        bad.append((
+                            "C18/deep_eq-depends-on-earlier-calls:%s"
+                            % type(x).__name__,
+                            "after IR.deep_eq('same', %s) and an in-place "
+                            "edit of a block, %s.deep_eq gives %r but the "
+                            "compared content %s"
+                            % (label, type(x).__name__, got,
+                               "is equal" if want else "differs"), label))
+            want = ir_snap(cur, PV) == ir_snap(vspec, PV)
+            for x, y, tag in ((a, b, "ab"), (b, a, "ba")):
+                try:
+                    got = x.deep_eq(y)
+                except Exception as e:  # noqa
+                    got = "raised %s" % type(e).__name__
+                if got != want and len(bad) < 40:
+                    bad.append(("C18/deep_eq-after-in-place-edit:IR",
+                                "IR.deep_eq %s after editing a block of 'same'"
+                                " vs %s: %r, content %s"
+                                % (tag, label, got,
+                                   "equal" if want else "differs"), label))
+    return n, bad
+
+
 def classify(label):
     import re
 
@@ -434,12 +509,18 @@ def run(ctx):
     for k, b in common.pmap(work, tasks, chunksize=1):
         n += k
         bad += b
+    n_hist = 0
+    for k, b in common.pmap(work_history, tasks, chunksize=1):
+        n_hist += k
+        bad += b
+    n += n_hist
     c01.report(ctx, bad)
     cov = {
         "states": sum(sizes.values()),
         "transitions": n,
         "traces_validated_against_impl": n,
         "variants_per_base": sizes,
+        "compare_edit_compare_calls": n_hist,
         "exhaustive": True,
         "bound": "all ordered pairs of the variants of the 22-node base IR "
         "(every single compared-field perturbation, every uncompared change); "
